@@ -52,7 +52,7 @@ def main(tier, seed):
 
 
 def _main(tier, seed, extra):
-    return dbtie.db_check("C06", tier, seed, PROFILE, 500, 4000, "Prop_C06",
+    return dbtie.db_check("C06", tier, seed, PROFILE, 800, 4000, "Prop_C06",
                           "user callables and re are an environment the theorems quantify over; the tie instantiates them with the twin table",
                           extra_cases=extra, extra_cov={"enumerated_sequences": len(extra), "enumeration": "every operation sequence of depth 3 over a "
                                                         "15-letter alphabet and of depth 4 over its first 8 letters (thorough tier)"})
